@@ -15,7 +15,7 @@ import select
 import sys
 import threading
 
-from common import coq
+from common import coq, with_watchdog
 
 PID = "C24"
 LEVEL_TEXT = ("Machine-checked proof (Coq, closed under the global context) that in the model of the repaired "
@@ -395,12 +395,13 @@ def pipe_setups(thorough, rng):
     if thorough:
         A2 = [[0, 1], [1, 0], [0, 0], [1, 1]]
         B2 = [[2, 3], [3, 2], [2, 2], [3, 3]]
-        for a in A2:
-            for b in B2:
-                combos.append([a, b])
-        for a in A1 + A2[:2]:
-            for b in B1 + B2[:2]:
+        for a, b in zip(A2 + A2, B2 + B2[1:] + B2[:1]):
+            combos.append([a, b])
+        for a in A1:
+            for b in B1:
                 combos.append([a, b, C[0]])
+        for a, b in zip(A2, B2[1:] + B2[:1]):
+            combos.append([a, b, C[0]])
     else:
         for a in A1:
             for b in B1:
@@ -635,7 +636,7 @@ def run(ctx):
                 "(stdout-half thread, stderr-half thread, set_forever thread; one or two calls each), ALL line-level "
                 "interleavings of one stdout-half call against one stderr-half call, preemption-bounded otherwise "
                 "(against set_forever: 1 quick / 3 thorough preemptions; three threads or two calls each: 1 / 2, "
-                "quick tier capped at 40 schedules per setup) on real "
+                "capped at 40 (quick) / 250 (thorough) schedules per setup) on real "
                 "PosixPipe/OrPipe "
                 "objects; (2) real Channel + stub transport, seeded random operation sequences run sequentially, "
                 "compared with the model after every operation; (3) real Channel, 2-3 threads, preemption-bounded "
@@ -664,7 +665,7 @@ def run(ctx):
                 mp = 3 if ctx.thorough else 1   # against set_forever (2002 interleavings unbounded)
             else:
                 mp = 2 if ctx.thorough else 1
-            limit = 1500 if ctx.thorough else (600 if simple else 40)
+            limit = (1500 if simple else 250) if ctx.thorough else (600 if simple else 40)
             complete = check_pipe_setup(ctx, start, calls, mp, limit, cases, stats)
             all_complete = all_complete and complete
         ctx.log("pipe level: %d schedules on the real objects (enumeration complete within bounds: %s)" % (
@@ -693,7 +694,16 @@ def run(ctx):
         scases = []
         for j in range(2000 if ctx.thorough else 400):
             nops = rng.randrange(1, 9)
-            start, mops, out, failure = chan_sequential_case(rng, nops)
+            seed = rng.getrandbits(48)
+            import random as _random
+            st, res = with_watchdog(lambda: chan_sequential_case(_random.Random(seed), nops), 10.0)
+            if st != "ok":
+                # an operation blocked inside the event maintenance (e.g. os.read on an empty pipe) or raised
+                ctx.fail("sequential-op-blocks" if st == "hang" else "sequential-op-raises",
+                         "a channel operation blocks for ever / raises in a single-threaded run after fileno()",
+                         case={"seq_seed": seed, "nops": nops}, observed=repr(res))
+                break
+            start, mops, out, failure = res
             ctx.count(("seq", tuple(start), tuple(mops)), nontrivial=len(mops) >= 2, kind="chan-seq")
             scases.append((start, mops, out))
             if failure is not None:
@@ -706,11 +716,12 @@ def run(ctx):
         for i in bad[:3]:
             ctx.disagree("Channel event maintenance differs from the model (sequential run)",
                          case={"start": scases[i][0], "ops": scases[i][1]}, impl=scases[i][2])
-        ctx.sample({"chan_seq": {"start": scases[0][0], "ops": scases[0][1], "impl": scases[0][2]}})
+        if scases:
+            ctx.sample({"chan_seq": {"start": scases[0][0], "ops": scases[0][1], "impl": scases[0][2]}})
 
         # ---- 3. channel level, concurrent (oracle) --------------------------------------------
         nrun = 0
-        for pre, progs in chan_setups(rng, 40 if ctx.thorough else 10):
+        for pre, progs in chan_setups(rng, 30 if ctx.thorough else 10):
             gen = explore(lambda: ChanEnv(pre, progs), 2, 300 if ctx.thorough else 60)
             for choices, obs in gen:
                 nrun += 1
@@ -780,5 +791,12 @@ def replay(ctx, rep):
         ctx.count(("replay2", repr(case)))
         if dead is not None or obs["exc"] or obs["readable"] != obs["wanted"]:
             ctx.fail(rep["key"], rep["what"], case=case, expected=obs["wanted"], observed=obs["readable"])
+    elif "seq_seed" in case:
+        import random as _random
+        st, res = with_watchdog(lambda: chan_sequential_case(_random.Random(case["seq_seed"]), case["nops"]), 10.0)
+        ctx.count(("replay", repr(case)))
+        ctx.count(("replay2", repr(case)))
+        if st != "ok" or res[3] is not None:
+            ctx.fail(rep["key"], rep["what"], case=case, observed=repr(res))
     else:
         run(ctx)
